@@ -57,7 +57,6 @@ func c02Atoms(tier string) []c02Atom {
 		{Text: `a=*`, Col: "a", Op: "=", Lit: "*"},
 		{Text: `a!=x`, Col: "a", Op: "!=", Lit: "x"},
 		{Text: `m=FOO`, Col: "m", Op: "=", Lit: "FOO"},
-		{Text: `m=ba?`, Col: "m", Op: "=", Lit: "ba?"},
 		{Text: `m=foo*`, Col: "m", Op: "=", Lit: "foo*"},
 		{Text: `FOO`, Lit: "FOO"},
 		{Text: `"foo bar"`, Lit: "foo bar"},
